@@ -58,18 +58,38 @@ def dedupe(cases):
     return out
 
 
-def compile_all(cases):
+def compile_all(ctx, cases, budget_s):
+    """Compile every case with /repo (16 processes).  The first tenth is always done; if the measured rate
+    says the rest does not fit into budget_s, the rest is subsampled (seeded) - reported in coverage."""
     import own_lib
     import pool
 
-    n = max(1, min(len(cases), 16 * 8))
-    chunks = [cases[k::n] for k in range(n)]
-    res = pool.map_jobs(own_lib.run_chunk, chunks, chunksize=1, maxtasks=None)
+    def go(idx):
+        n = max(1, min(len(idx), 16 * 4))
+        chunks = [idx[k::n] for k in range(n)]
+        res = pool.map_jobs(own_lib.run_chunk, [[cases[i] for i in ch] for ch in chunks], chunksize=1, maxtasks=None)
+        for ch, rs in zip(chunks, res):
+            for i, r in zip(ch, rs):
+                out[i] = r
+
+    import time
+
     out = [None] * len(cases)
-    for k, rs in enumerate(res):
-        for j, r in enumerate(rs):
-            out[k + j * n] = r
-    return out
+    order = list(range(len(cases)))
+    random.Random(ctx.seed).shuffle(order)
+    head = order[: max(200, len(order) // 10)]
+    t0 = time.time()
+    go(head)
+    rate = len(head) / max(time.time() - t0, 1e-3)
+    rest = order[len(head):]
+    fit = int(rate * max(budget_s - (time.time() - t0), 0))
+    if fit < len(rest):
+        ctx.log(f"compile rate {rate:.0f}/s: {len(rest)} remaining bodies do not fit into {budget_s}s, sampling {fit}")
+        rest = rest[:fit]
+    if rest:
+        go(rest)
+    done = [i for i in range(len(cases)) if out[i] is not None]
+    return [cases[i] for i in done], [out[i] for i in done]
 
 
 def judge(c, r):
@@ -90,6 +110,12 @@ def judge(c, r):
         return (f"accepted:{c['reason']}:{last_op(c)}:{c['origin']}",
                 f"ownership violation accepted: specification says error ({c['reason']}) for {where}, "
                 f"/repo compiled it to a HUGR")
+    if spec == "error" and st == "rejected" and c["at"] != r.get("impl_at"):
+        say = lambda k: f"raised by statement {k} of the body" if k else "reported when the function returns"
+        return (f"misplaced:{c['reason']}:{last_op(c)}:{c['origin']}",
+                f"ownership error for {where} not raised where the specification says: specification: "
+                f"{c['reason']} error {say(c['at'])}; /repo: {r.get('impl_reason')} error {say(r.get('impl_at'))} "
+                f"({r.get('error', {}).get('class')})")
     if spec == "ok" and st == "rejected":
         return (f"rejected:{r.get('impl_reason')}:{last_op(c)}:{c['origin']}",
                 f"body without ownership violation rejected for {where}: {r.get('error', {}).get('class')} "
@@ -135,17 +161,18 @@ def nontrivial(c):
 
 def run(ctx):
     ctx.level = "model_checking"
-    cases = emit_cases(ctx, ctx.pick("ComptimeOwn_Q.cfg", "ComptimeOwn_T.cfg"))
+    cases = emit_cases(ctx, os.environ.get("VERIF_C22_CFG") or ctx.pick("ComptimeOwn_Q.cfg", "ComptimeOwn_T.cfg"))
     n_exh = len(cases)
     n_sim = 0
-    if not ctx.quick:
+    if not ctx.quick and not os.environ.get("VERIF_C22_CFG"):
         sim = emit_cases(ctx, "ComptimeOwn_Sim.cfg", simulate=30000, depth=8)
         n_sim = len(sim)
         cases = cases + sim
     cases = dedupe(cases)
-    ctx.log(f"{len(cases)} distinct bodies ({n_exh} exhaustive, {n_sim} simulated)")
-    results = compile_all(cases)
-    ctx.log("compiled")
+    n_emitted = len(cases)
+    ctx.log(f"{n_emitted} distinct bodies ({n_exh} exhaustive, {n_sim} simulated)")
+    cases, results = compile_all(ctx, cases, int(os.environ.get("VERIF_C22_BUDGET") or ctx.pick(150, 1200)))
+    ctx.log(f"compiled {len(cases)}")
     viol, stats = evaluate(ctx, cases, results)
     report(ctx, viol)
     rnd = random.Random(ctx.seed)
@@ -154,7 +181,7 @@ def run(ctx):
         k = c["verdict"] if c["verdict"] == "ok" else "error:" + c["reason"]
         by_verdict[k] = by_verdict.get(k, 0) + 1
     muts = {m: sum(1 for c in cases if any(s["op"] == m for s in c["prog"])) for m in MUTATORS + ["setattr_same", "setattr_fresh", "setattr_alias"]}
-    if min(muts.values()) == 0:
+    if min(muts.values()) == 0 and not os.environ.get("VERIF_C22_CFG"):
         raise lib.Machinery(f"some mutator never occurs in an emitted body: {muts}")
     ctx.coverage.update({
         "traces_validated_against_impl": len(cases),
@@ -164,7 +191,8 @@ def run(ctx):
                 "assignment, on the subject or a component) + return of subject, first component or nothing, over "
                 "9 subject types x {owned, borrowed, local}; non-trivial = >= 2 statements, or 1 statement and a return",
         "samples": [own_render(c) for c in rnd.sample(cases, min(4, len(cases)))],
-        "exhaustive": n_sim == 0,
+        "exhaustive": len(cases) == n_emitted,
+        "bodies_emitted_by_tlc": n_emitted,
         "exhaustive_bodies": n_exh, "simulated_bodies": n_sim,
         "spec_verdicts": by_verdict,
         "bodies_per_mutator": muts,
@@ -209,7 +237,7 @@ def selftest(ctx):
     sample = []
     for g in groups.values():
         sample += rnd.sample(g, min(40, len(g)))
-    results = compile_all(sample)
+    sample, results = compile_all(ctx, sample, 3600)
     base, _ = evaluate(ctx, sample, results)
     base_ids = {case_id(x["case"]) for v in base.values() for x in v}
     # 1. flip the expected verdict of cases the check currently accepts -> must be flagged
@@ -224,6 +252,10 @@ def selftest(ctx):
             c2.update(verdict="error", reason="leak")
         else:
             c2.update(verdict="ok", reason="-")
+            # ... and move the place where the error is expected
+            c3 = dict(c, at=0 if c["at"] else 1)
+            if judge(c3, results[i]) is None:
+                raise lib.Machinery(f"selftest: moved error position of a {reason} case was accepted:\n{results[i]['src']}")
         if judge(c2, results[i]) is None:
             raise lib.Machinery(f"selftest: flipped verdict of a {verdict}/{reason} case was accepted:\n{results[i]['src']}")
         flipped += 1
